@@ -152,7 +152,8 @@ def mutate(rng, text, other):
 
 
 def gen_nesting(rng):
-    d = rng.choice([1, 2, 5, 10, 20, 50, 100, 150, 200])
+    # around the parser's own nesting limits (128 blocks, 400 expression levels) and far beyond them
+    d = rng.choice([1, 2, 5, 10, 20, 50, 100, 127, 128, 129, 150, 200, 399, 400, 401, 1000, 3000, 20000])
     k = rng.randrange(12)
     if k == 0:
         return "PRINT " + "(" * d + "1" + ")" * d + "\n"
@@ -171,9 +172,9 @@ def gen_nesting(rng):
     if k == 7:
         return "PRINT " + "NOT " * d + "1\n"
     if k == 8:
-        return "A" + "x" * (d * 10) + " = " + "9" * (d * 10) + "\n"
+        return "A" + "x" * min(d * 10, 4000) + " = " + "9" * min(d * 10, 4000) + "\n"
     if k == 9:
-        return "PRINT " + " + ".join(["1"] * (d * 5)) + "\n"
+        return "PRINT " + " + ".join(["1"] * min(d * 5, 30000)) + "\n"
     if k == 10:
         return "WHILE A\n" * d + "PRINT 1\n" + "WEND\n" * d
     # unbalanced versions
